@@ -59,6 +59,8 @@ class Check:
 
     # ---------------------------------------------------------------- facts
     def ob(self, rule: str, key: str, ok: bool, detail: str = '', loc: str = '', **extra: Any) -> bool:
+        key = ' '.join(key.split())
+        detail = ' '.join(detail.split())
         n = self._seen_keys.get((rule, key), 0) + 1
         self._seen_keys[(rule, key)] = n
         if n > 1:
